@@ -15,8 +15,10 @@ import (
 	"bytes"
 	"errors"
 	"fmt"
+	"io"
 	"reflect"
 	"regexp"
+	"sort"
 	"strings"
 	"sync"
 	"time"
@@ -90,6 +92,16 @@ func (e MapErr) Error() string { return fmt.Sprintf("maperr %d <>", len(e)) }
 type StructErr struct{ Code int }
 
 func (e StructErr) Error() string { return fmt.Sprintf("err %d <>&", e.Code) }
+
+// ErrKey is a comparable struct that implements only error (a map key type).
+type ErrKey struct{ Code int }
+
+func (e ErrKey) Error() string { return fmt.Sprintf("errkey%d", e.Code) }
+
+// EnvKey is a comparable struct that implements only native.EnvStringer.
+type EnvKey struct{ A int }
+
+func (k EnvKey) String(native.Env) string { return fmt.Sprintf("envkey%d", k.A) }
 
 type PtrErr struct{ Code int }
 
@@ -172,6 +184,24 @@ func types() []typ {
 		ty(map[complex128]int{complex(1, 2): 1}, map[complex128]int{complex(0, 1): 1}), ty(map[complex64]int{complex(1, 2): 1}, map[complex64]int{}),
 		ty(map[StructStringer]int{{1}: 1}, map[StructStringer]int{{2}: 2}), ty(map[any]int{"a": 1}, map[any]int{1: 1}), ty(map[[1]int]int{{1}: 1}, map[[1]int]int{{2}: 1}),
 		ty(map[string]any{"a": uintptr(1)}, map[string]any{"b": nil}),
+		// maps keyed by every basic kind and by types implementing only error /
+		// only fmt.Stringer / only native.EnvStringer; all values are non-empty
+		ty(map[int8]int{1: 1}, map[int8]int{-2: 1, 3: 1}), ty(map[int16]int{1: 1}, map[int16]int{-2: 1}), ty(map[int32]int{1: 1}, map[int32]int{-2: 1}), ty(map[int64]int{1: 1}, map[int64]int{-2: 1}),
+		ty(map[uint]int{1: 1}, map[uint]int{2: 1}), ty(map[uint8]int{1: 1}, map[uint8]int{2: 1}), ty(map[uint16]int{1: 1}, map[uint16]int{2: 1}), ty(map[uint32]int{1: 1}, map[uint32]int{2: 1}), ty(map[uint64]int{1: 1}, map[uint64]int{2: 1}),
+		ty(map[float32]int{1.5: 1}, map[float32]int{-2: 1}), ty(map[NString]int{"a": 1}, map[NString]int{"<": 1}), ty(map[NInt]string{1: "a"}, map[NInt]string{2: "b"}),
+		ty(map[ErrKey]int{{1}: 1}, map[ErrKey]int{{2}: 1, {3}: 2}), ty(map[error]int{ErrKey{1}: 1}, map[error]int{ErrKey{2}: 1}),
+		ty(map[EnvKey]int{{1}: 1}, map[EnvKey]int{{2}: 1, {3}: 2}), ty(map[fmt.Stringer]int{StructStringer{1}: 1}, map[fmt.Stringer]int{StructStringer{2}: 1}),
+		ty(map[*PtrStringer]int{ps1: 1}, map[*PtrStringer]int{ps2: 1}), ty(map[StringStringer]int{"a": 1}, map[StringStringer]int{"b": 1}),
+		// the same key kinds nested in a struct field, a slice and a map element
+		ty(struct{ M map[ErrKey]int }{map[ErrKey]int{{1}: 1}}, struct{ M map[ErrKey]int }{map[ErrKey]int{{2}: 1}}),
+		ty(struct{ M map[error]int }{map[error]int{ErrKey{1}: 1}}, struct{ M map[error]int }{map[error]int{ErrKey{2}: 1}}),
+		ty(struct{ M map[EnvKey]int }{map[EnvKey]int{{1}: 1}}, struct{ M map[EnvKey]int }{map[EnvKey]int{{2}: 1}}),
+		ty(struct{ M map[StructStringer]int }{map[StructStringer]int{{1}: 1}}, struct{ M map[StructStringer]int }{map[StructStringer]int{{2}: 1}}),
+		ty(struct{ M map[uintptr]int }{map[uintptr]int{1: 1}}, struct{ M map[uintptr]int }{map[uintptr]int{2: 1}}),
+		ty(struct{ M map[complex128]int }{map[complex128]int{complex(1, 2): 1}}, struct{ M map[complex128]int }{map[complex128]int{complex(0, 1): 1}}),
+		ty(struct{ M map[[1]int]int }{map[[1]int]int{{1}: 1}}, struct{ M map[[1]int]int }{map[[1]int]int{{2}: 1}}),
+		ty([]map[ErrKey]int{{{1}: 1}}, []map[ErrKey]int{{{2}: 1}}), ty(map[string]map[ErrKey]int{"a": {{1}: 1}}, map[string]map[ErrKey]int{"b": {{2}: 1}}),
+		ty(&map[ErrKey]int{{1}: 1}, &map[ErrKey]int{{2}: 1}),
 		ty(st1, st2), ty(struct{}{}, struct{}{}), ty(struct{ a int }{1}, struct{ a int }{2}), ty(struct{ P uintptr }{1}, struct{ P uintptr }{2}),
 		ty(func() {}, func() {}), ty(func(int) string { return "" }, func(int) string { return "x" }), ty(c1, c2), ty((<-chan int)(c1), (<-chan int)(c2)),
 		ty(t1, t2), ty(&t1, &t2), ty(time.Second, -90*time.Minute),
@@ -493,6 +523,144 @@ func evalNil(ci, mi int) kit.Outcome {
 	return kit.Outcome{OK: true, Class: "nil interface value shown", Nontrivial: true}
 }
 
+// ---- two shows of the same global in one compilation ----
+
+func mdCopy(src []byte, out io.Writer) error { _, err := out.Write(src); return err }
+
+// pairFiles returns the files of a template that shows v at site a and then
+// at site b: in one file when both sites live in the same kind of file, else
+// site b is a partial rendered after site a (one compilation either way).
+func pairFiles(a, b int) (scriggo.Files, string) {
+	ca, cb := contexts[a], contexts[b]
+	if ca.file == cb.file {
+		return scriggo.Files{ca.file: []byte(ca.src + "\n\n" + cb.src)}, ca.file
+	}
+	partial := "p" + cb.file[strings.LastIndex(cb.file, "."):]
+	return scriggo.Files{ca.file: []byte(ca.src + "\n\n{{ render \"" + partial + "\" }}"), partial: []byte(cb.src)}, ca.file
+}
+
+type pairKey struct {
+	a, b int
+	t    reflect.Type
+}
+
+var pairBuilds sync.Map
+
+func buildPair(a, b int, t reflect.Type) (*scriggo.Template, error) {
+	e, _ := pairBuilds.LoadOrStore(pairKey{a, b, t}, &buildRes{})
+	r := e.(*buildRes)
+	done := false
+	defer func() {
+		if !done {
+			pairBuilds.Delete(pairKey{a, b, t})
+		}
+	}()
+	r.once.Do(func() {
+		files, name := pairFiles(a, b)
+		r.tmpl, r.err = scriggo.BuildTemplate(files, name, &scriggo.BuildOptions{
+			Globals:           native.Declarations{"v": reflect.Zero(reflect.PointerTo(t)).Interface()},
+			MarkdownConverter: mdCopy,
+		})
+	})
+	done = true
+	return r.tmpl, r.err
+}
+
+func filesText(fs scriggo.Files, name string) string {
+	var names []string
+	for n := range fs {
+		names = append(names, n)
+	}
+	sort.Strings(names)
+	var b strings.Builder
+	for _, n := range names {
+		fmt.Fprintf(&b, "file %s = %q\n", n, fs[n])
+	}
+	return b.String() + "entry " + name
+}
+
+// evalPair shows the global of static type T at site a and then at site b.
+func evalPair(T typ, a, b int) kit.Outcome {
+	if _, err := buildPair(a, b, anyT); err != nil {
+		return kit.Outcome{OK: true, Class: "pair: n/a (the two sites cannot be combined: " + kit.NormMsg(err.Error()) + ")"}
+	}
+	_, ea, pa := buildSafe(a, T.t)
+	_, eb, pb := buildSafe(b, T.t)
+	if pa || pb {
+		return kit.Outcome{OK: true, Class: "pair: n/a (BuildTemplate panics for one site alone, reported in the grid)"}
+	}
+	files, name := pairFiles(a, b)
+	head := fmt.Sprintf("sites %q then %q, global v declared as (*%s)(nil)\n%s", contexts[a].name, contexts[b].name, T.name, filesText(files, name))
+	alone := func(e error) string {
+		if e == nil {
+			return "accepted"
+		}
+		return "rejected (" + e.Error() + ")"
+	}
+	verdicts := fmt.Sprintf("\nalone, site %q is %s\nalone, site %q is %s", contexts[a].name, alone(ea), contexts[b].name, alone(eb))
+	tmpl, err := buildPair(a, b, T.t)
+	if err != nil {
+		if ea == nil && eb == nil {
+			return kit.Outcome{
+				Key:        "the build verdict of a show depends on another show of the same variable|both accepted alone, rejected together",
+				Nontrivial: true, Class: "fail",
+				Detail: head + "\nBuildTemplate: " + err.Error() + verdicts,
+			}
+		}
+		return kit.Outcome{OK: true, Class: "pair: rejected at build, as one of its sites alone", Nontrivial: true}
+	}
+	for k, v := range T.vals {
+		out, err := run(tmpl, T.t, v)
+		if err == nil {
+			continue
+		}
+		what := []string{"the zero value", "a non-zero value", "a non-zero value"}[k]
+		return kit.Outcome{
+			Key:        failKey(T.t, err),
+			Nontrivial: true, Class: "fail",
+			Detail: fmt.Sprintf("%s\nBuildTemplate accepted it; Run with v = %s (%s) fails: %v\noutput so far: %q%s", head, goValue(v), what, err, out, verdicts),
+		}
+	}
+	if ea != nil || eb != nil {
+		return kit.Outcome{
+			Key:        "the build verdict of a show depends on another show of the same variable|rejected alone, accepted together",
+			Nontrivial: true, Class: "fail",
+			Detail: head + "\nBuildTemplate accepted it and Run succeeded" + verdicts,
+		}
+	}
+	return kit.Outcome{OK: true, Class: "pair: accepted as both sites alone, 3 values shown", Nontrivial: true, Ops: 6}
+}
+
+// representatives returns one type per acceptance pattern (the row of
+// accepted / rejected over all sites), in table order.
+func representatives(tys []typ) ([]typ, []string) {
+	seen := map[string]bool{}
+	var reps []typ
+	var rows []string
+	for _, T := range tys {
+		row := make([]byte, len(contexts))
+		for c := range contexts {
+			_, err, p := buildSafe(c, T.t)
+			switch {
+			case p:
+				row[c] = 'P'
+			case err != nil:
+				row[c] = '-'
+			default:
+				row[c] = '+'
+			}
+		}
+		if !seen[string(row)] {
+			seen[string(row)] = true
+			reps = append(reps, T)
+			rows = append(rows, string(row))
+		}
+	}
+	return reps, rows
+}
+
+var repRows []string
+
 func spaces(tier string) []kit.Space {
 	// the contexts must be the ones their names say
 	for i, c := range contexts {
@@ -511,7 +679,30 @@ func spaces(tier string) []kit.Space {
 		c := contexts[ci]
 		return map[string]string{"type": T, "context": c.name, "file": c.file, "template": c.src, "global v": modes[mi].name}
 	}
+	reps, rows := representatives(tys)
+	pairTypes := "representative types (one per acceptance pattern)"
+	repRows = nil
+	for i, r := range reps {
+		repRows = append(repRows, rows[i]+" "+r.name)
+	}
+	if tier == "thorough" {
+		reps, pairTypes = tys, "all types"
+	}
+	nr := uint64(len(reps))
 	return []kit.Space{
+		{
+			Name: "two shows of one global: " + pairTypes + " x ordered pairs of sites",
+			Size: nr * nc * nc,
+			Eval: func(i uint64) kit.Outcome {
+				d := kit.Mixed(i, nc, nc, nr)
+				return evalPair(reps[d[2]], int(d[1]), int(d[0]))
+			},
+			Describe: func(i uint64) any {
+				d := kit.Mixed(i, nc, nc, nr)
+				files, name := pairFiles(int(d[1]), int(d[0]))
+				return map[string]string{"type": reps[d[2]].name, "first site": contexts[d[1]].name, "second site": contexts[d[0]].name, "files": filesText(files, name)}
+			},
+		},
 		{
 			Name: "types x contexts x {static, any, error, fmt.Stringer}",
 			Size: nt * nc * nm,
@@ -543,7 +734,7 @@ func main() {
 	kit.Main(&kit.Check{
 		ID:    "C09",
 		Level: "model_checking",
-		Rule:  "complete grid: 99 types (the 17 basic kinds incl. uintptr and both complex kinds, a named type of each, []byte, named []byte, [3]byte, implementers of fmt.Stringer (struct, pointer receiver, string-, slice- and func-kinded), native.EnvStringer, error (struct, pointer receiver, map-kinded, errors.New), native.HTML/CSS/JS/JSON/Markdown and an implementer of each of their ten stringer interfaces, pointers, slices, arrays, maps with string/int/bool/float/uintptr/complex/Stringer/interface/array keys, structs, funcs, chans, time.Time, *time.Time, time.Duration, unsafe.Pointer) x 27 show sites covering the 14 contexts (text; HTML; tag; quoted attribute with both quotes; unquoted attribute; CSS and CSS string in .css and <style>; JS and JS string in .js and <script>; JSON and JSON string in .json and <script type=application/ld+json>; Markdown; tab and spaces code block; HTML inside Markdown) and the URL states (path, query, unquoted, srcset, Markdown URL) x {global of the static type, boxed in any, boxed in error, boxed in fmt.Stringer}, each with the zero value and two non-zero values; plus a nil any / error / fmt.Stringer in every site. The context of every site is verified against the disassembled Show instruction. Non-trivial = BuildTemplate was called for the cell (rejected at build, or accepted and run 3 times); cells whose type does not implement the boxing interface are n/a",
+		Rule:  "complete grid: 127 types (the 17 basic kinds incl. uintptr and both complex kinds, a named type of each, []byte, named []byte, [3]byte, implementers of fmt.Stringer (struct, pointer receiver, string-, slice- and func-kinded), native.EnvStringer, error (struct, pointer receiver, map-kinded, errors.New), native.HTML/CSS/JS/JSON/Markdown and an implementer of each of their ten stringer interfaces, pointers, slices, arrays, non-empty maps keyed by every basic kind, by named string/int, by types implementing only error (a struct and the interface error itself), only fmt.Stringer (struct, pointer, string-kinded, the interface), only native.EnvStringer, by interface and array keys, the same maps nested in a struct field, a slice, a map element and behind a pointer, structs, funcs, chans, time.Time, *time.Time, time.Duration, unsafe.Pointer) x 27 show sites covering the 14 contexts (text; HTML; tag; quoted attribute with both quotes; unquoted attribute; CSS and CSS string in .css and <style>; JS and JS string in .js and <script>; JSON and JSON string in .json and <script type=application/ld+json>; Markdown; tab and spaces code block; HTML inside Markdown) and the URL states (path, query, unquoted, srcset, Markdown URL) x {global of the static type, boxed in any, boxed in error, boxed in fmt.Stringer}, each with the zero value and two non-zero values; plus a nil any / error / fmt.Stringer in every site; plus templates with TWO shows of the same global (every ordered pair of the 27 sites, 729, in one file when both sites live in the same kind of file, else the second site is a partial rendered after the first) for one representative type per acceptance pattern (the row of accepted/rejected over the 27 sites; 10 patterns on the current tree, listed in the evidence) in the quick tier and for all 127 types in the thorough tier: if the pair builds Run must not fail, and the pair must build exactly when both sites alone accept the type. The context of every site is verified against the disassembled Show instruction. Non-trivial = BuildTemplate was called for the cell (rejected at build, or accepted and run 3 times); cells whose type does not implement the boxing interface are n/a",
 		Assumptions: []string{
 			"a failure is ANY error returned by Run for these one-show templates (the values avoid the documented data errors: no unclosed HTML comment in Markdown)",
 			"pointer-receiver methods of the table's types are safe on a nil receiver; a nil *T whose T has a value-receiver String/Error/HTML/… method (e.g. a nil *time.Time) is the zero value of an accepted static type: Run panicking on it (instead of showing it or returning an error) is reported under one key",
@@ -551,5 +742,8 @@ func main() {
 			"a boxed value whose Run succeeds although its dynamic type is rejected statically is not a breach of the statement and only classed",
 		},
 		Spaces: spaces,
+		Extra: func(string) map[string]any {
+			return map[string]any{"acceptance_patterns(+ accepted, - rejected, per site in table order) and their representative type": repRows}
+		},
 	})
 }
